@@ -481,6 +481,15 @@ inline int worker_main(int argc, char** argv, const Engine& e)
                 std::string d = r.detail;
                 std::replace(d.begin(), d.end(), '\n', ' ');
                 printf("V %" PRIu64 " %016" PRIx64 " %s %s | %s\n", seed, r.fingerprint, path.c_str(), r.signature.c_str(), d.c_str());
+                if(r.signature.find("timeout") != std::string::npos || r.signature.find("TIMEOUT") != std::string::npos || r.signature.find("HANG") != std::string::npos)
+                {
+                    // the code under test did not return within its CPU budget: the worker ends here, like after a
+                    // crash-class outcome, so that the orchestrator sees it now and can stop offering it more seeds
+                    print_stats();
+                    printf("END\n");
+                    fflush(stdout);
+                    _exit(98);
+                }
             }
             else
                 printf("R %" PRIu64 " %016" PRIx64 "\n", seed, r.fingerprint);
